@@ -573,6 +573,43 @@ def inline_aligner_ties(name, obs, init, iterations, opts, mask=None):
     return worst
 
 
+def integration_search_gap(name, obs, emb, init, iterations, opts):
+    """smallest relative gap between the best and the second best candidate permutation that the built-in alignment of an
+    integration model (`inline_permutation_alignment=True`) compares during this fit (None if it never runs).  Candidates
+    within rounding of each other are decided by rounding and then by enumeration order."""
+    from pb_bss.distribution import gcacgmm as _g, vmfcacgmm as _v, mixture_model_utils as _m
+    fname = 'log_pdf_to_affiliation_for_integration_models_with_inline_pa'
+    orig = getattr(_m, fname)
+    gaps = []
+
+    def spy(weight, spatial_log_pdf, spectral_log_pdf, source_activity_mask=None, affiliation_eps=0.):
+        F, K, T = spatial_log_pdf.shape
+        for f in range(F):
+            vals = []
+            for p_ in itertools.permutations(range(K)):
+                lp = spatial_log_pdf[f, list(p_), :] + spectral_log_pdf[f]
+                c = np.exp(lp - lp.max(-2, keepdims=True))
+                c /= np.maximum(c.sum(-2, keepdims=True), np.finfo(float).tiny)
+                vals.append(float(np.sum(c * lp)))
+            v = np.sort(vals)[::-1]
+            if len(v) > 1 and np.isfinite(v[0]):
+                gaps.append((v[0] - v[1]) / max(1.0, abs(v[0])))
+        return orig(weight, spatial_log_pdf, spectral_log_pdf, source_activity_mask, affiliation_eps)
+
+    saved = [(mod, getattr(mod, fname)) for mod in (_g, _v)]
+    try:
+        for mod, _ in saved:
+            setattr(mod, fname, spy)
+        try:
+            fit(name, obs, emb, init, iterations, opts)
+        except Exception:  # noqa
+            pass
+    finally:
+        for mod, f_ in saved:
+            setattr(mod, fname, f_)
+    return min(gaps) if gaps else None
+
+
 def all_perms(K):
     return [list(p) for p in itertools.permutations(range(K))]
 
